@@ -30,20 +30,20 @@ func die(f string, a ...any) {
 }
 
 type rewriter struct {
-	fset   *token.FileSet
-	info   *types.Info
-	pkg    *types.Package
-	sites  []string
-	file   string
-	used   bool
-	comms  map[*ast.CommClause]ast.Stmt
-	isDef  map[*ast.CommClause]bool
-	recvs  map[*ast.CallExpr]bool
-	mem    bool
-	labels map[ast.Stmt]bool // statements that carry a label
-	stats  map[string]int
+	fset    *token.FileSet
+	info    *types.Info
+	pkg     *types.Package
+	sites   []string
+	file    string
+	used    bool
+	comms   map[*ast.CommClause]ast.Stmt
+	isDef   map[*ast.CommClause]bool
+	recvs   map[*ast.CallExpr]bool
+	mem     bool
+	labels  map[ast.Stmt]bool // statements that carry a label
+	stats   map[string]int
 	curFunc string
-	ord    map[string]int
+	ord     map[string]int
 }
 
 func (r *rewriter) site(n ast.Node, kind string) ast.Expr {
@@ -123,20 +123,20 @@ func (r *rewriter) funcOf(c *ast.CallExpr) *types.Func {
 }
 
 var libBlocking = map[string]bool{
-	"(*github.com/nats-io/nats.go.Conn).Flush":              true,
-	"(*github.com/nats-io/nats.go.Conn).FlushTimeout":       true,
-	"(*github.com/nats-io/nats.go.Conn).Subscribe":          true,
-	"(*github.com/nats-io/nats.go.Conn).QueueSubscribe":     true,
-	"(*github.com/nats-io/nats.go.Conn).Publish":            true,
-	"(*github.com/nats-io/nats.go.Conn).PublishRequest":     true,
-	"(*github.com/nats-io/nats.go.Conn).Barrier":            true,
-	"(*github.com/nats-io/nats.go.Subscription).Drain":      true,
+	"(*github.com/nats-io/nats.go.Conn).Flush":               true,
+	"(*github.com/nats-io/nats.go.Conn).FlushTimeout":        true,
+	"(*github.com/nats-io/nats.go.Conn).Subscribe":           true,
+	"(*github.com/nats-io/nats.go.Conn).QueueSubscribe":      true,
+	"(*github.com/nats-io/nats.go.Conn).Publish":             true,
+	"(*github.com/nats-io/nats.go.Conn).PublishRequest":      true,
+	"(*github.com/nats-io/nats.go.Conn).Barrier":             true,
+	"(*github.com/nats-io/nats.go.Subscription).Drain":       true,
 	"(*github.com/nats-io/nats.go.Subscription).Unsubscribe": true,
-	"(*github.com/go-stomp/stomp.Conn).Send":                true,
-	"(*github.com/go-stomp/stomp.Conn).Subscribe":           true,
-	"(*github.com/go-stomp/stomp.Conn).Ack":                 true,
-	"(*github.com/go-stomp/stomp.Subscription).Unsubscribe": true,
-	"(*net/http.Client).Do":                                 true,
+	"(*github.com/go-stomp/stomp.Conn).Send":                 true,
+	"(*github.com/go-stomp/stomp.Conn).Subscribe":            true,
+	"(*github.com/go-stomp/stomp.Conn).Ack":                  true,
+	"(*github.com/go-stomp/stomp.Subscription).Unsubscribe":  true,
+	"(*net/http.Client).Do":                                  true,
 }
 
 // library methods that are known not to block (anything else on these types aborts)
